@@ -17,6 +17,7 @@ MODULE_PREFIXES = {"np", "numpy", "math", "torch", "scipy", "special"}
 SIGNATURES = {}
 # leading parameters of the numpy / scipy functions the package calls with keywords now and then
 NUMPY_SIGNATURES = {
+    "ndarray": ["shape", "dtype", "buffer", "offset", "strides"],
     "insert": ["arr", "obj", "values", "axis"],
     "delete": ["arr", "obj", "axis"],
     "searchsorted": ["a", "v", "side", "sorter"],
@@ -78,6 +79,9 @@ class _Canon(ast.NodeTransformer):
 
     def visit_Attribute(self, node):
         self.generic_visit(node)
+        # pandas: df.dtypes.index is df.columns
+        if node.attr == "index" and isinstance(node.value, ast.Attribute) and node.value.attr == "dtypes":
+            return ast.Attribute(value=node.value.value, attr="columns", ctx=node.ctx)
         if isinstance(node.value, ast.Name) and node.value.id in MODULE_PREFIXES:
             return ast.copy_location(ast.Name(id=node.attr, ctx=ast.Load()), node)
         full = ast.unparse(node)
@@ -185,6 +189,16 @@ class _Canon(ast.NodeTransformer):
                 return ast.Call(func=v.func, args=[sl.upper], keywords=[])
             if sl.upper is None and sl.lower is not None:
                 return ast.Call(func=v.func, args=[sl.lower, v.args[0]], keywords=[])
+        return node
+
+    def visit_Tuple(self, node):
+        self.generic_visit(node)
+        # (*a, *()) == (*a,) ; (*a,) == tuple(a)
+        if isinstance(node.ctx, ast.Load) and any(isinstance(e, ast.Starred) for e in node.elts):
+            elts = [e for e in node.elts if not (isinstance(e, ast.Starred) and ((isinstance(e.value, ast.Tuple) and not e.value.elts) or (isinstance(e.value, ast.Call) and isinstance(e.value.func, ast.Name) and e.value.func.id == "tuple" and not e.value.args)))]
+            if len(elts) == 1 and isinstance(elts[0], ast.Starred):
+                return ast.Call(func=ast.Name(id="tuple", ctx=ast.Load()), args=[elts[0].value], keywords=[])
+            node.elts = elts
         return node
 
     def visit_ListComp(self, node):
